@@ -444,10 +444,11 @@ def has_overlap(ts, d, strict):  # noqa: C901, PLR0911
     if h == "Optional":
         return d is not None and has_overlap(ts[1], d, strict)
     if h in ITER_IMPL:
-        items = _iter_items(d) if not isinstance(d, (str, bytes)) else None
+        # whatever the loader would iterate: bytes always, str in lax mode (accepts() has already ruled on admission)
+        items = _iter_items(d) if not (strict and isinstance(d, str)) else None
         return bool(items) and any(has_overlap(ts[1], x, strict) for x in items)
     if h == "Tuple":
-        items = _iter_items(d) if not isinstance(d, (str, bytes)) else None
+        items = _iter_items(d) if not (strict and isinstance(d, str)) else None
         return bool(items) and len(items) == len(ts) - 1 and any(has_overlap(t, x, strict) for t, x in zip(ts[1:], items))
     if h in DICTS:
         if not isinstance(d, collections.abc.Mapping):
